@@ -40,7 +40,8 @@ def kind_of(v):
     if isinstance(v, (ast.Attribute, ast.Name, ast.Subscript)):
         return "alias"
     if isinstance(v, ast.Tuple):
-        return "constant" if all(kind_of(e) == "constant" for e in v.elts) else "tuple"
+        # an immutable tuple of constants / of names (each name is classified where it is bound)
+        return "constant" if all(kind_of(e) in ("constant", "alias") for e in v.elts) else "tuple"
     return type(v).__name__
 
 
